@@ -18,7 +18,7 @@
 
 static void get_rlist(char *s, int rlist)
 {
-  int i, comma;
+  int i, comma = 0;
   char temp[32];
 
   s[0] = 0;
